@@ -31,9 +31,11 @@ if [ $need_sim = 1 ]; then
 fi
 for p in "$@"; do
   if [ "$p" = C20 ]; then out=$(cd $M/c20 && ./check.sh quick 2>&1); rc=$?
-  else out=$(cd $M && VERIF_MAX_SHRINKS=2 $M/target/sim/rtcsim check "$p" quick 2>&1); rc=$?; fi
+  else out=$(cd $M && VERIF_MAX_SHRINKS=2 $M/target/sim/rtcsim check "$p" quick 2>&1); rc=$?
+    if [ "$p" = C12 ] && [ $rc = 0 ]; then out=$(cd $M/c20 && ./check.sh c12 quick 2>&1); rc=$?; fi   # second engine of C12
+  fi
   nviol=$(echo "$out" | grep -c "^VIOLATION property=$p ")
-  first=$(echo "$out" | grep "^  $p\.\|^  regression" | head -1 | cut -c1-240)
+  first=$(echo "$out" | grep "^  $p\.\|^  regression\|^VIOLATION" | head -1 | cut -c1-240)
   case $rc in
     1) echo "CAUGHT $p ($nviol violation lines) $first";;
     0) echo "MISSED $p";;
